@@ -59,7 +59,8 @@ def check(run: Run) -> None:
     # g's parameters seen from the scan
     binding = {}
     if g is not ps:
-        sites = [(c_, call, skip) for c_, call, skip in call_sites_of(m, g) if c_ is ps]
+        # call sites in the (possibly normalised) view of the scan itself
+        sites = [(ps, c_, 0 if g.cls is None or "staticmethod" in g.decorators else 1) for c_ in calls_in(ps) if (c_.func.id if isinstance(c_.func, ast.Name) else getattr(c_.func, "attr", None)) == g.name]
         if len(sites) != 1:
             raise AnalysisError(f"{g.name} is not called exactly once from _parse_source_for_lambda")
         _c, call, skip = sites[0]
